@@ -224,7 +224,11 @@ func Const(nshard int, columns ...interface{}) Slice {
 	if !ok {
 		typecheck.Panic(1, "const: invalid slice inputs")
 	}
-	// TODO(marius): convert panic to a typecheck panic
+	for i := range columns {
+		if reflect.ValueOf(columns[i]).Len() != reflect.ValueOf(columns[0]).Len() {
+			typecheck.Panic(1, "const: columns must have the same length")
+		}
+	}
 	s.frame = frame.Slices(columns...)
 	return s
 }
